@@ -1721,10 +1721,14 @@ func makePointerArshaler(t reflect.Type) *arshaler {
 	init := func() {
 		valFncs = lookupArshaler(t.Elem())
 	}
+	// A pointer to a pointer or interface may recurse without ever writing
+	// a JSON token, in which case the nesting depth never increases.
+	// Always check for cycles in such cases.
+	mayRecurseWithoutDepth := t.Elem().Kind() == reflect.Pointer || t.Elem().Kind() == reflect.Interface
 	fncs.marshal = func(enc *jsontext.Encoder, va addressableValue, mo *jsonopts.Struct) error {
 		// Check for cycles.
 		xe := export.Encoder(enc)
-		if xe.Tokens.Depth() > startDetectingCyclesAfter {
+		if xe.Tokens.Depth() > startDetectingCyclesAfter || (mayRecurseWithoutDepth && !va.IsNil()) {
 			if err := visitPointer(&xe.SeenPointers, va.Value); err != nil {
 				return newMarshalErrorBefore(enc, t, err)
 			}
